@@ -528,3 +528,23 @@ func (i *interpreter) where() string {
 	}
 	return w
 }
+
+// mapOrderSubject reports whether fn is code under test (a function of the
+// gopki module that is not part of a harness file): only there is the
+// iteration order of maps explored as a nondeterministic choice.
+func (i *interpreter) mapOrderSubject(fn *ssa.Function) bool {
+	for fn.Parent() != nil {
+		fn = fn.Parent()
+	}
+	pkg := fn.Pkg
+	if pkg == nil && fn.Origin() != nil {
+		pkg = fn.Origin().Pkg
+	}
+	if pkg == nil || pkg.Pkg == nil || !strings.HasPrefix(pkg.Pkg.Path(), ModulePath) {
+		return false
+	}
+	if p := fn.Pos(); p.IsValid() {
+		return !strings.HasPrefix(filepath.Base(i.prog.Fset.Position(p).Filename), "zz_verif")
+	}
+	return false
+}
